@@ -1,8 +1,31 @@
 package main
 
-import "os"
+import (
+	"os"
+	"sync"
+)
 
 func readFile(path string) (string, error) {
 	b, err := os.ReadFile(path)
 	return string(b), err
+}
+
+// parallel runs f(0..n-1) on j goroutines.
+func parallel(n, j int, f func(int)) {
+	var wg sync.WaitGroup
+	ch := make(chan int)
+	for w := 0; w < j; w++ {
+		wg.Add(1)
+		go func() {
+			defer wg.Done()
+			for i := range ch {
+				f(i)
+			}
+		}()
+	}
+	for i := 0; i < n; i++ {
+		ch <- i
+	}
+	close(ch)
+	wg.Wait()
 }
